@@ -318,6 +318,9 @@ impl Prop for C14 {
         };
         let n = vocab.len();
         let can_rollback = crate::gen::supports_rollback(&case.g);
+        // a known hidden-stop panic seen anywhere in this case: shallow clones of `base` share its lexer tables, so the
+        // poisoned mutex outlives the clone that panicked
+        let mut seen_known_panic: Option<String> = None;
         let f = factory(&vocab);
         let base = match self.base_engine(&f, case, &vocab) {
             Some(b) => b,
@@ -343,7 +346,8 @@ impl Prop for C14 {
                     let m2 = match guarded_clone(&engs[s].m, *deep) {
                         Ok(m) => m,
                         Err(msg) => {
-                            let errs: Vec<Option<String>> = engs.iter().map(|o| o.m.get_error()).collect();
+                            let mut errs: Vec<Option<String>> = engs.iter().map(|o| o.m.get_error()).collect();
+                            errs.push(seen_known_panic.clone());
                             let key = match explain(Some(msg.clone()), &errs, can_rollback) {
                                 Some(Err(k)) => k,
                                 _ => "C14/clone-panicked".to_string(),
@@ -374,6 +378,11 @@ impl Prop for C14 {
                     let want = perform(&c, &mut pm, &mut ptoks, n);
                     let e = &mut engs[w];
                     let got = perform(&c, &mut e.m, &mut e.tokens, n);
+                    if let Some(er) = e.m.get_error() {
+                        if crate::engine::hidden_stop_panic(&er).is_some() {
+                            seen_known_panic = Some(er);
+                        }
+                    }
                     log.push(format!("e{}:{:?}", w, c));
                     ctx.eval(1);
                     if any_limit(&[&pm, &e.m]) {
@@ -381,7 +390,8 @@ impl Prop for C14 {
                         return Ok(());
                     }
                     if got != want {
-                        let errs: Vec<Option<String>> = engs.iter().map(|o| o.m.get_error()).collect();
+                        let mut errs: Vec<Option<String>> = engs.iter().map(|o| o.m.get_error()).collect();
+                        errs.push(seen_known_panic.clone());
                         let k = match explain(errs[w].clone(), &errs, can_rollback) {
                             Some(Ok(())) => {
                                 ctx.class("dead_end_state(no verdict)");
@@ -436,12 +446,18 @@ impl Prop for C14 {
                 let want = perform(&c, &mut pm, &mut ptoks, n);
                 let e = &mut pair[w];
                 let got = perform(&c, &mut e.m, &mut e.tokens, n);
+                if let Some(er) = e.m.get_error() {
+                    if crate::engine::hidden_stop_panic(&er).is_some() {
+                        seen_known_panic = Some(er);
+                    }
+                }
                 ctx.eval(1);
                 if any_limit(&[&pm, &e.m]) {
                     return Ok(());
                 }
                 if got != want {
-                    let errs: Vec<Option<String>> = pair.iter().map(|o| o.m.get_error()).collect();
+                    let mut errs: Vec<Option<String>> = pair.iter().map(|o| o.m.get_error()).collect();
+                    errs.push(seen_known_panic.clone());
                     let k = match explain(errs[w].clone(), &errs, can_rollback) {
                         Some(Ok(())) => {
                             ctx.class("dead_end_state(no verdict)");
@@ -532,7 +548,8 @@ impl Prop for C14 {
                     }
                 }
             }
-            let errs: Vec<Option<String>> = results.iter().map(|r| r.1.clone()).collect();
+            let mut errs: Vec<Option<String>> = results.iter().map(|r| r.1.clone()).collect();
+            errs.push(seen_known_panic.clone());
             let mut known: Option<String> = None;
             for (k, (outs, err)) in results.iter().enumerate() {
                 ctx.eval(outs.len() as u64);
